@@ -54,8 +54,26 @@ macro_rules! ops_for_float {
                 }
                 for &(hh, a, b) in &cols {
                     let x = $mk(hh, a, b);
+                    {
+                        // clamp in both forms (plain and Alpha-wrapped)
+                        use palette::{Alpha, Clamp, ClampAssign};
+                        let case = json!({"type": $name, "float": tn, "color": [hh as f64, a as f64, b as f64]});
+                        finite3!($c, format!("C07/ops/{}<{}>/clamp", $name, tn), case.clone(), $arr(x.clamp()));
+                        finite3!($c, format!("C07/ops/{}<{}>/clamp_assign", $name, tn), case.clone(), { let mut y = x; y.clamp_assign(); $arr(y) });
+                        finite3!($c, format!("C07/ops/{}<{}>/Alpha::clamp_assign", $name, tn), case.clone(), { let mut y = Alpha { color: x, alpha: a }; y.clamp_assign(); let z = $arr(y.color); [z[0], z[1], z[2], y.alpha] });
+                        $n += 3;
+                    }
                     for &ff in &f {
                         let case = json!({"type": $name, "float": tn, "color": [hh as f64, a as f64, b as f64], "factor": ff as f64});
+                        {
+                            use palette::{DarkenAssign, DesaturateAssign, LightenAssign, SaturateAssign, ShiftHueAssign};
+                            finite3!($c, format!("C07/ops/{}<{}>/lighten_assign", $name, tn), case.clone(), { let mut y = x; y.lighten_assign(ff); $arr(y) });
+                            finite3!($c, format!("C07/ops/{}<{}>/darken_fixed_assign", $name, tn), case.clone(), { let mut y = x; y.darken_fixed_assign(ff); $arr(y) });
+                            finite3!($c, format!("C07/ops/{}<{}>/saturate_assign", $name, tn), case.clone(), { let mut y = x; y.saturate_assign(ff); $arr(y) });
+                            finite3!($c, format!("C07/ops/{}<{}>/desaturate_fixed_assign", $name, tn), case.clone(), { let mut y = x; y.desaturate_fixed_assign(ff); $arr(y) });
+                            finite3!($c, format!("C07/ops/{}<{}>/shift_hue_assign", $name, tn), case.clone(), { let mut y = x; y.shift_hue_assign(ff * (180.0 as T)); $arr(y) });
+                            $n += 5;
+                        }
                         finite3!($c, format!("C07/ops/{}<{}>/lighten", $name, tn), case.clone(), $arr(x.lighten(ff)));
                         finite3!($c, format!("C07/ops/{}<{}>/lighten_fixed", $name, tn), case.clone(), $arr(x.lighten_fixed(ff)));
                         finite3!($c, format!("C07/ops/{}<{}>/darken", $name, tn), case.clone(), $arr(x.darken(ff)));
@@ -96,6 +114,19 @@ macro_rules! ops_for_float {
             for &(hh, w, b) in &cols {
                 let x = Hwb::<palette::encoding::Srgb, T>::new(hh, w, b);
                 let arr = |x: Hwb<palette::encoding::Srgb, T>| [x.hue.into_inner(), x.whiteness, x.blackness];
+                {
+                    use palette::{Alpha, Clamp, ClampAssign, Okhwb};
+                    let case = json!({"type": "Hwb", "float": tn, "color": [hh as f64, w as f64, b as f64]});
+                    finite3!($c, format!("C07/ops/Hwb<{}>/clamp", tn), case.clone(), arr(x.clamp()));
+                    finite3!($c, format!("C07/ops/Hwb<{}>/clamp_assign", tn), case.clone(), { let mut y = x; y.clamp_assign(); arr(y) });
+                    finite3!($c, format!("C07/ops/Hwb<{}>/Alpha::clamp_assign", tn), case.clone(), { let mut y = Alpha { color: x, alpha: w }; y.clamp_assign(); let z = arr(y.color); [z[0], z[1], z[2], y.alpha] });
+                    finite3!($c, format!("C07/ops/Hwb<{}>/[_]::clamp_assign", tn), case.clone(), { let mut y = [x, x]; y[..].clamp_assign(); arr(y[1]) });
+                    let o = Okhwb::<T>::new(hh, w, b);
+                    let oarr = |x: Okhwb<T>| [x.hue.into_inner(), x.whiteness, x.blackness];
+                    finite3!($c, format!("C07/ops/Okhwb<{}>/clamp", tn), case.clone(), oarr(o.clamp()));
+                    finite3!($c, format!("C07/ops/Okhwb<{}>/clamp_assign", tn), case.clone(), { let mut y = o; y.clamp_assign(); oarr(y) });
+                    $n += 6;
+                }
                 for &ff in &f {
                     let case = json!({"type": "Hwb", "float": tn, "color": [hh as f64, w as f64, b as f64], "factor": ff as f64});
                     finite3!($c, format!("C07/ops/Hwb<{}>/lighten", tn), case.clone(), arr(x.lighten(ff)));
@@ -292,6 +323,6 @@ pub fn run(ctx: &Ctx, total: &mut Collector) {
     ops_for_float!(f32, c, n);
     ops_for_float!(f64, c, n);
     c.add(sub, n, n, n, n);
-    c.exhaustive(sub, true, "boundary colours of Hsv/Hsl/Hwb/Okhsv/Okhsl/Lch/Oklch/Lab x 9 factors (lighten, darken, saturate, desaturate, _fixed forms, shift_hue) and mix partners; all ordered pairs of 120 Lab boundary colours through 11 difference measures; nearly coincident pairs (144 Lch colours x each component moved by 1..40 ulps and by a relative 1e-7 / 1e-5) through the difference measures of Lch, Lab, Cam16UcsJmh, Cam16UcsJab; all ordered pairs of 72 LinSrgba boundary colours through 11 blend modes, 6 Porter-Duff operators, WCAG contrast; premultiply/unpremultiply through every public route out of the premultiplied form (unpremultiply, From<PreAlpha<C>> for C and for Alpha<C>, Premultiply::unpremultiply; LinSrgb and Lab); f32 and f64");
+    c.exhaustive(sub, true, "boundary colours of Hsv/Hsl/Hwb/Okhwb/Okhsv/Okhsl/Lch/Oklch/Lab x 9 factors (lighten, darken, saturate, desaturate, _fixed forms, shift_hue; by value and assigning) and clamp / clamp_assign (plain, Alpha, slice) and mix partners; all ordered pairs of 120 Lab boundary colours through 11 difference measures; nearly coincident pairs (144 Lch colours x each component moved by 1..40 ulps and by a relative 1e-7 / 1e-5) through the difference measures of Lch, Lab, Cam16UcsJmh, Cam16UcsJab; all ordered pairs of 72 LinSrgba boundary colours through 11 blend modes, 6 Porter-Duff operators, WCAG contrast; premultiply/unpremultiply through every public route out of the premultiplied form (unpremultiply, From<PreAlpha<C>> for C and for Alpha<C>, Premultiply::unpremultiply; LinSrgb and Lab); f32 and f64");
     total.merge(c);
 }
